@@ -987,6 +987,63 @@ def sweep(ctx, rn, env, tag, thorough_extra=False):
                 rn.case(tag + "pair:keyshares", {"keyShares": ks, "eccCurves": ecc, "dhGroups": dh}, env)
 
 
+def judge_pair(ctx, table, kind, cspec, sspec, cred, alpn):
+    """run one pair in the lab and compare with the independent expectation; returns a short verdict"""
+    from . import c19_pairs as P
+    r = P.run_pair(cspec, sspec, cred, alpn)
+    rep = {"stage": "pair", "kind": kind, "client": cspec, "server": sspec, "cred": cred, "alpn": alpn}
+    if r["outcome"].startswith("invalid"):
+        ctx.count("pair:" + r["outcome"])
+        return "invalid"
+    exp, why, v = P.compatible(table, r["cset"], r["sset"], cred)
+    ctx.case(key=("pair", repr(sorted(cspec.items())), repr(sorted(sspec.items())), cred, repr(alpn)),
+             sample={"kind": kind, "client": cspec, "server": sspec, "cred": cred, "expected": exp, "why": why,
+                     "outcome": r["outcome"]} if ctx.evaluations % 701 == 0 else None)
+    ctx.count("pair-kind:" + kind.split(":")[0] + (":" + kind.split(":")[1] if kind.startswith("sys:") else ""))
+    ctx.count("pair-cred:" + cred)
+    ctx.count("pair-expected:%s:%s" % (exp, why if exp is not True else "ok"))
+    if v is not None:
+        ctx.count("pair-version:%d.%d" % v)
+    vname = {None: "none", (3, 0): "ssl3", (3, 1): "tls10", (3, 2): "tls11", (3, 3): "tls12", (3, 4): "tls13"}[v]
+    detail = dict(rep, expected=exp, why=why, version=v, outcome=r["outcome"], client_result=r.get("client_exc"),
+                  server_result=r.get("server_exc"), validated_client=r["cset"], validated_server=r["sset"])
+    if exp is None:
+        ctx.count("info:pair-not-judged:%s:%s" % (why.split(":")[0], r["outcome"]))
+        return "unjudged"
+    if exp is True and r["outcome"] != "complete":
+        exc = r.get("server_exc") if r.get("server_exc") not in (None, "none") else r.get("client_exc")
+        ctx.violation("c19:compatible-pair-fails:%s-%s-%s" % (vname, P.CRED_FACTS[cred][0], str(exc).replace(":", "-")),
+                      "two validated settings that share version %s, a suite, a group and a signature scheme usable with "
+                      "the %s credentials do not complete a handshake (client: %s, server: %s)"
+                      % (vname, cred, r.get("client_exc"), r.get("server_exc")), detail)
+        return "bad"
+    if exp is False and r["outcome"] != "fail":
+        ctx.violation("c19:incompatible-pair-connects:" + why,
+                      "two validated settings with %s completed a handshake" % why, detail)
+        return "bad"
+    if exp is True:
+        both = P.enabled_suites(table, r["cset"], v) & P.enabled_suites(table, r["sset"], v)
+        if r["version"] != v or r["server_version"] != v or r["suite"] != r["server_suite"] or r["suite"] not in both:
+            ctx.violation("c19:pair-completes-outside-settings",
+                          "handshake completed with version %s / suite %#x (server side: %s / %#x); expected version %s and a "
+                          "suite both settings enable" % (r["version"], r["suite"], r["server_version"], r["server_suite"], v),
+                          detail)
+            return "bad"
+    return "ok"
+
+
+def pairs_phase(ctx):
+    """second half of C19: compatible validated settings connect (live lab, real environment)"""
+    from . import c19_pairs as P
+    table = P.suite_table()
+    ctx.extra["suite_table_size"] = len(table)
+    for (kind, c, s, cred, alpn) in P.systematic_pairs():
+        judge_pair(ctx, table, kind, c, s, cred, alpn)
+    for _ in range(ctx.pick(1500, 22000)):
+        kind, c, s, cred, alpn = P.gen_pair(ctx.rng)
+        judge_pair(ctx, table, kind, c, s, cred, alpn)
+
+
 def run(ctx):
     from translate import gen_settings
     ctx.rule = ("settings = defaults with any subset of fields replaced: (a) every listed in-/out-of-domain value of every "
@@ -994,11 +1051,19 @@ def run(ctx):
                 "key shares), (c) random restrict/reorder of the list dimensions with consistent scalars (the quantifier "
                 "proper), (d) random combinations of listed values over up to 10 fields; each under the real backend flags and "
                 "under patched m2crypto/pycrypto/3DES availability, a subset under patched ML-KEM/ML-DSA/compression "
-                "availability (module reloaded); distinct = distinct (spec, environment); non-trivial = differs from defaults")
+                "availability (module reloaded); distinct = distinct (spec, environment); non-trivial = differs from defaults. "
+                "Second half: pairs of validated settings x server credential kind in the live lab — systematic pairs that agree in "
+                "exactly one version / group (ffdhe-only, x25519-only, with the share sent at once, another share first, or none) / "
+                "cipher / MAC / key exchange / signature scheme, EMS/EtM/record_size_limit/ALPN combinations, and random pairs with "
+                "one-common / disjoint / random sub-lists per dimension; expectation = harness/props/c19_pairs.py:compatible")
     ctx.assumptions = ["copy.deepcopy + structural comparison sees every change of the receiver (opaque key/cert objects by type only)",
                        "patching cryptomath.m2cryptoLoaded / pycryptoLoaded / cipherfactory.tripleDESPresent and reloading "
                        "handshakesettings with patched availability flags is what another installation would look like",
-                       "documented domains are the literals in harness/props/c19.py and Tls.Settings.InDomain"]
+                       "documented domains are the literals in harness/props/c19.py and Tls.Settings.InDomain",
+                       "pair expectation: the version is negotiated first (highest common), everything else for it; pairs that "
+                       "are compatible only at a lower common version, DHE without a common RFC 7919 group, an ECDSA certificate "
+                       "on a curve the client did not list, and RSA key transport without any common signature scheme are run "
+                       "but not judged"]
     rn = Runner(ctx)
     envctl = rn.envctl
     try:
@@ -1016,6 +1081,8 @@ def run(ctx):
     try:
         real = envctl.real
         static_checks(ctx, rn, real)
+        # ---- second half of the property: pairs of validated settings in the live lab
+        pairs_phase(ctx)
         # ---- (a)+(b) under the real installation
         sweep(ctx, rn, real, "")
         # ---- wrong types: observations only (purity still judged)
@@ -1092,6 +1159,26 @@ def run(ctx):
 
 def replay(ctx, rep):
     inp = rep["input"]
+    if inp.get("stage") == "pair":
+        from . import c19_pairs as P
+        table = P.suite_table()
+        alpn = inp.get("alpn")
+        r = P.run_pair(inp["client"], inp["server"], inp["cred"], tuple(alpn) if alpn else None)
+        if r["outcome"].startswith("invalid"):
+            print("settings no longer validate:", r)
+            return False
+        exp, why, v = P.compatible(table, r["cset"], r["sset"], inp["cred"])
+        print("client settings:", inp["client"])
+        print("server settings:", inp["server"], " credentials:", inp["cred"], " alpn:", alpn)
+        print("expected compatible:", exp, "(%s) at version %s" % (why, v))
+        print("outcome:", r["outcome"], " client:", r.get("client_exc"), " server:", r.get("server_exc"),
+              " negotiated:", r.get("version"), hex(r["suite"]) if r.get("suite") else None)
+        if exp is True:
+            both = P.enabled_suites(table, r["cset"], v) & P.enabled_suites(table, r["sset"], v)
+            return r["outcome"] != "complete" or r["version"] != v or r["suite"] not in both
+        if exp is False:
+            return r["outcome"] != "fail"
+        return False
     if inp.get("stage") != "validate" or "spec" not in inp:
         print("replay of stage %r: re-running the whole check" % inp.get("stage"))
         run(ctx)
